@@ -405,6 +405,57 @@ class Payload(Base):
             yield dict(case, payload=c)
 
 
+class _CannedTransport(object):
+    """a `transport=` object for ServerProxy: whatever is sent, the peer answers with `text`"""
+
+    def __init__(self, text):
+        self.text = text
+        self.sent = []
+
+    def request(self, host, handler, request_body, verbose=0):
+        self.sent.append(request_body)
+        return self.text
+
+    def close(self):
+        pass
+
+    def push_headers(self, headers):
+        pass
+
+    def pop_headers(self, headers):
+        pass
+
+
+class Client(Payload):
+    """the CLIENT side: the same payloads arrive as the response text of a ServerProxy built with the
+    configuration under test (ServerProxy._run_request -> loads(response, self._config)); same model
+    function as the `payload` stream, the property demands the same outcome"""
+    name = "client"
+
+    def gen(self, tier, rng):
+        return gen_payload_cases(tier, rng, 250, 3000)
+
+    def run_impl(self, case):
+        self.ensure()
+        cfg = self.config(case["use"], case["classes"], case["version"])
+        text = json.dumps(case["payload"])
+        tr = _CannedTransport(text)
+        proxy = self.J.ServerProxy("http://localhost:1/rpc", transport=tr, config=cfg, version=case["version"])
+        out, imports, constructs = self.watch.observe(lambda: proxy._run_request('{"jsonrpc": "2.0", "method": "m", "id": 1}'))
+        if out[0] == "ok":
+            out = ("ok", self.world.abstract(out[1]))
+        return {"outcome": out, "imports": imports, "constructs": constructs}
+
+    def encode(self, case, obs):
+        payload = json.loads(json.dumps(case["payload"]))
+        if not payload:
+            return None        # an empty / falsy response text never reaches the decoder (`if not response: return None`)
+        return Payload.encode(self, case, obs)
+
+    def masked(self, case, obs):
+        return not json.loads(json.dumps(case["payload"])) and json.dumps(case["payload"]) in ('""', "null")
+
+
 class Server(Base):
     """the same payloads through SimpleJSONRPCDispatcher._marshaled_dispatch with a logging method"""
     name = "server"
@@ -550,4 +601,4 @@ class DumpGate(Base):
 
 
 def streams():
-    return [Names(), Payload(), Server(), DumpGate()]
+    return [Client(), Names(), Payload(), Server(), DumpGate()]
